@@ -142,8 +142,11 @@ def self_check():
             ['meta', {'metadata': {'path': 'f'}, 'encoding': 'latin-1'}],
             ['diff', {'content': b'--- a\n+++ b\n', 'diff_type': 'text'}],
             ['change', {}],
+            ['preamble', {'text': 'inherits main again é'}],
             ['file', {'encoding': 'cp037'}],
             ['meta', {'metadata': {'k': 'é'}}],
+            ['file', {}],
+            ['meta', {'metadata': {'sibling': 'inherits the change'}}],
         ],
     }
     data = ref_serialize(prog)
